@@ -269,10 +269,12 @@ def direction_a(ck, dev):
             # representation variants outside the model: P written as an unsigned number; /Length omitted when 40
             variant = {"punsigned": (len(repr(dk)) & 1) == 0, "length_entry": c["keylen"] != 40 or (len(repr(dk)) & 2) == 0}
         jobs.append((c, dk[1], dk[2], trieds, variant))
+    # the documents of the size dimension take long (the library's RC4 is pure Python): start them first
+    jobs.sort(key=lambda j: 0 if j[0].get("dv") in ("big", "huge") else 1)
     t0 = time.time()
     nproc = min(14, os.cpu_count() or 2)
     with multiprocessing.get_context("fork").Pool(nproc) as pool:
-        outs = pool.map(run_doc, jobs, chunksize=max(1, len(jobs) // (nproc * 8)))
+        outs = pool.map(run_doc, jobs, chunksize=1)
     ck.extra["documents_realised"] = len(jobs)
     ck.extra["realise_and_open_wall_s"] = round(time.time() - t0, 1)
     drift = 0
